@@ -367,7 +367,7 @@ theorem expandParents_spec (ctx : TCtx E nodes tips ends) (nfuel : Nat) (hn : no
             -- `p` is visible: a hidden commit has a counted hidden child that is never emitted
             have hnh : ¬ Hid E ends p := by
               intro hh
-              obtain ⟨c', hc1, hc2, hc3⟩ := ctx.hidden_child (tips := tips) hh hpe
+              obtain ⟨c', hc1, hc2, hc3⟩ := ctx.hid_walk p hh hpr hpe
               have hc'c := hcounted c' hc2 (ctx.gen_le_walk hc3)
               have hc'o : c' ∉ outp := fun hmem => (hw1.n.out_inv c' hmem).2.1 hc1
               have := cnt_pos (nodes := nodes) (s := s1) (ctx.rch_nodes hc2) hc'c hc3 hc'o
